@@ -10,7 +10,7 @@ ids="$@"
 [ -z "$ids" ] && ids=$(ls seeded)
 for s in $ids; do
   p=$(/venv/bin/python -c "import json;print(json.load(open('seeded/$s/meta.json'))['property'])")
-  if ! git -C $WT apply seeded/$s/patch.diff 2> /dev/null; then echo "$s $p patch does not apply"; continue; fi
+  if ! git -C $WT apply $(pwd)/seeded/$s/patch.diff 2> /dev/null; then echo "$s $p patch does not apply"; continue; fi
   VERIF_SEED=1 VERIF_REPO=$WT VERIF_EVID=$OUT/evid VERIF_BUILD=$OUT/build timeout 3400 ./check $p --tier quick > $OUT/$s.log 2>&1
   rc=$?
   echo "$s $p rc=$rc violations=$(grep -c '^VIOLATION' $OUT/$s.log) divergences=$(grep -c '^DIVERGENCE' $OUT/$s.log) $(grep -m1 'clause=' $OUT/$s.log | cut -c1-60)"
